@@ -276,7 +276,8 @@ class FBuilder(Builder):
                 ops_sv.append((tuple(arr.shape), arr))
                 js.append(j)
                 nodes.append(node)
-            out_shape, out, cop, _ = exactops.translate(fn, {}, ops_sv)
+            # mg.clip(a, lo, None, out=t) is maximum(a, lo) written into t; mg.clip(a, None, hi, out=t) is minimum(a, hi)
+            out_shape, out, cop, _ = exactops.translate({"clip_lo": "maximum", "clip_hi": "minimum"}.get(fn, fn), {}, ops_sv)
         except (ValueError, IndexError, TypeError, KeyError):
             return False
         if tuple(out_shape) != tuple(t.shape) or out.size == 0 or np.abs(out).max() > progs.MAXVAL:
@@ -415,11 +416,11 @@ def mutate(b, rng, t):
         return b.setitem(t, ix, rand_value(b, rng, region.shape))
     if r < 0.8:
         return b.aug(t, rng.choice(["add", "subtract", "multiply"]), rand_value(b, rng, t.shape))
-    fn = rng.choice(["add", "multiply", "subtract", "maximum"])
+    fn = rng.choice(["add", "multiply", "subtract", "maximum", "clip_lo", "clip_hi"])
     a1 = rand_value(b, rng, t.shape)
     a2 = rand_value(b, rng, t.shape)
     where, wshape = None, None
-    if rng.random() < 0.5:
+    if rng.random() < 0.5 and not fn.startswith("clip"):
         wshape = t.shape
         if rng.random() < 0.4:
             cand = progs.compat_shapes(rng, t.shape)
